@@ -48,6 +48,7 @@ MUTANTS = [
     ("C19", AS + ".Assembly.find_overlapping_fragments", AS, "return over_pairs if over_pairs else None", "return over_pairs"),
     ("C19", AS + ".Assembly.find_overlapping_fragments", AS, "frags.extend((x, scffld) for x in scffld.fragments())", "frags.extend((x, self.scaffolds[0]) for x in scffld.fragments())"),
     ("C19", SC + ".Scaffold.fragments", SC, "            if isinstance(row, Fragment):\n                yield row", "            if not isinstance(row, Gap) or row.length == 0:\n                yield row"),
+    ("C19", "tola.assembly.scripts.asm_format.report_overlaps", "tola.assembly.scripts.asm_format", 'click.echo(f"\\nOverlap:\\n{s1.name} {f1}\\n{s2.name} {f2}", err=True)', 'click.echo(f"\\nOverlap:\\n{s1.name} {f1}\\n{s2.name} {f2}")'),
     # C11 / C14
     ("C14", FR + ".Fragment.reverse", FR, "-1 * self.strand", "self.strand"),
     ("C11", FR + ".Fragment.junction_tuple", FR, "return othr.name, othr.end, self.name, self.start", "return self.name, self.end, othr.name, othr.start"),
